@@ -255,7 +255,7 @@ func c01Enumerate(tier string, emit func(*eng.Case)) {
 	thorough := tier == "thorough"
 	// 10: the documents of the other checks: without URL, and with a URL (their own or a default)
 	// under each pagination algorithm; every document also through the byte entry point
-	crossEmit(tier, "cross", 1, func(c *eng.Case) {
+	crossEmit("C01", tier, "cross", 1, func(c *eng.Case) {
 		u := c.URL
 		if u == "" {
 			u = "http://example.com/a/b/story.html"
